@@ -38,6 +38,11 @@ def cells(tier):
         out.append(dict(kind=kind, ttl=None, off=0.0, mk="immediate"))
         # the broker call which sets an expired message aside fails once (connection fault): whatever
         # becomes of the message then, it must not be executed
+        # the same grid east and west of UTC (one ttl)
+        for tz in (9, -5):
+            for off in OFFS:
+                for mk in KINDS:
+                    out.append(dict(kind=kind, ttl=2.0 + (1.0 if mk == "retried" else 0.0), off=off, mk=mk, tz=tz))
         for off in (0.001, 0.5) if kind != "mem" else ():  # the in-memory broker has no call that can fail
             for mk in KINDS:
                 out.append(dict(kind=kind, ttl=1.0 + (1.0 if mk == "retried" else 0.0), off=off, mk=mk, fault=True))
@@ -45,6 +50,15 @@ def cells(tier):
 
 
 def execute(cell):
+    from ..vloop import local_zone
+
+    # the local time zone of the process is an input too (code that mixes UTC and local stamps behaves
+    # only when they coincide)
+    with local_zone(cell.get("tz", 0)):
+        return _execute(cell)
+
+
+def _execute(cell):
     kind, ttl, off, mk = cell["kind"], cell["ttl"], cell["off"], cell["mk"]
     x = Exec(kind)
     w = x.world
@@ -215,7 +229,8 @@ def run_job(job):
         acc.phases[cell["mk"] + ("+fault" if cell.get("fault") else "")] += 1
         for sig, what in viol:
             acc.violations.append(dict(
-                signature=f"{cell['kind']} {sig} {cell['mk']}" + (" nack-fails" if cell.get("fault") else ""),
+                signature=f"{cell['kind']} {sig} {cell['mk']}" + (" nack-fails" if cell.get("fault") else "")
+                          + (" local-zone" if cell.get("tz") else ""),
                 what=what + f" [cell {cell}]",
                 job=dict(cells=[cell]),
                 detail=summary,
